@@ -6,6 +6,7 @@ From QV Require Import Common.Prelude Engine.Model Engine.Core Engine.CoreSpec E
   Engine.CoreInvSem Engine.Fw Engine.FwBase Engine.FwMono Engine.FwOnce Engine.FwInv Engine.FwRun
   Engine.MdlSpec Engine.MdlSem Engine.MdlBase Engine.MdlMono Engine.MdlInv Engine.MdlInvState Engine.MdlInvExec
   Engine.MdlInvClean Engine.MdlRunBase Engine.MdlRun Engine.MdlRunAux Engine.MdlRunAll Engine.MdlCommit Engine.MdlWorld.
+From Coq Require Import Permutation.
 Open Scope Z_scope.
 
 Lemma wf_model_x_facts : forall p, wf_model_x p ->
@@ -25,8 +26,8 @@ Proof.
   - intros n e He. apply alookup_In in He. apply (Hkeys n e He).
 Qed.
 
-Lemma step_f_session : forall fuel pfuel p s sets,
-  step_f fuel pfuel p s (OSession sets false) =
+Lemma step_f_session : forall tord bord fuel pfuel p s sets,
+  step_f tord bord fuel pfuel p s (OSession sets false) =
   let s := set_log s [] in
   let s0 := set_ts s (s_ts s + 1)%N in
   let '(s1, rs, batch) := fold_left fsess_step sets (s0, [], []) in
@@ -40,8 +41,8 @@ Proof.
   match goal with |- context [fold_left ?F sets ?A] => destruct (fold_left F sets A) as [[s1 rs] batch] end.
   reflexivity.
 Qed.
-Lemma step_f_session_gen : forall fuel pfuel p s sets refresh,
-  step_f fuel pfuel p s (OSession sets refresh) =
+Lemma step_f_session_gen : forall tord bord fuel pfuel p s sets refresh,
+  step_f tord bord fuel pfuel p s (OSession sets refresh) =
   let s := set_log s [] in
   let s0 := set_ts s (s_ts s + 1)%N in
   let '(s1, rs, batch) := fold_left fsess_step sets (s0, [], []) in
@@ -72,23 +73,26 @@ Proof. intros env s o s'. destruct o; reflexivity. Qed.
 
 Section Steps.
 Variable p : program.
+Variables tord bord : state -> node -> list node -> list node.
 Variable rk : node -> nat.
 Hypothesis Hrk : forall n e d, alookup p n = Some e -> In d (expr_reads e) -> (rk d < rk n)%nat.
 Hypothesis Hproj : forall n e d, alookup p n = Some e -> nkind n = KProjection -> In d (expr_reads e) ->
   is_fw_or_proj (nkind d) = true.
 Hypothesis Hkeys : forall n e, alookup p n = Some e -> is_mexec_kind (nkind n) = true.
+Hypothesis Htord : forall s x l y, In y (tord s x l) <-> In y l.
+Hypothesis Hbord : forall s x l y, In y (bord s x l) <-> In y l.
 
 (** the invariant between operations: every operation starts by emptying the log *)
 Definition BInv (env : menv) (s : state) : Prop := MInv p rk (set_log s []) [] env (set_log s []).
 
 Lemma root_query : forall fuel env s n o fr ms s1,
   BInv env s ->
-  query_for p None fuel [] CUser None n (set_log s []) = Ok (o, fr, ms, s1) ->
+  query_for_o p None tord bord fuel [] CUser None n (set_log s []) = Ok (o, fr, ms, s1) ->
   MInv p rk (set_log s []) [] env s1 /\
   exists i, get_info s1 n = Some i /\ i_verified i = s_ts s1 /\ o = QValue (Some (i_value i)).
 Proof.
   intros fuel env s n o fr ms s1 HI0 Eq.
-  destruct (proj1 (msound_all p rk (set_log s []) Hrk Hproj Hkeys fuel) env [] [] [] CUser None n _ o fr ms s1
+  destruct (proj1 (msound_all p tord bord rk (set_log s []) Hrk Hproj Hkeys Htord Hbord fuel) env [] [] [] CUser None n _ o fr ms s1
               HI0 (StkR_nil p n) (fun _ => eq_refl) I eq_refl (or_introl eq_refl) Eq)
     as (HI1 & _ & _ & i & Hi & Hv & Ho).
   split; [exact HI1|]. exists i. split; [exact Hi|]. split; [exact Hv|]. exact (Ho eq_refl).
@@ -115,7 +119,7 @@ Qed.
 
 (** one operation keeps the invariant (a session must not have run out of fuel) *)
 Lemma mstep_inv : forall fuel pfuel s o s' r env,
-  BInv env s -> step_f fuel pfuel p s o = (s', r) ->
+  BInv env s -> step_f tord bord fuel pfuel p s o = (s', r) ->
   (forall sets b, o = OSession sets b -> r_out r <> RFuel) ->
   BInv (env_step env s o s') s'.
 Proof.
@@ -129,7 +133,7 @@ Proof.
       inversion H; subst; try (exfalso; eapply Hfuel; eauto; reflexivity).
     eapply (MInv_of_MSess p rk Hrk Hproj _ env); eauto.
   - unfold step_f in H. cbn [env_step].
-    destruct (query_for p None fuel [] CUser None n (set_log s [])) as [[[[o fr] ms] s1]| | |] eqn:Eq.
+    destruct (query_for_o p None tord bord fuel [] CUser None n (set_log s [])) as [[[[o fr] ms] s1]| | |] eqn:Eq.
     + destruct (root_query _ _ _ _ _ _ _ _ HI0 Eq) as [HI1 _].
       destruct o as [[z|]|]; inversion H; subst; eapply BInv_of; exact HI1.
     + inversion H. subst. eapply BInv_of; exact HI0.
@@ -203,7 +207,7 @@ Proof.
 Qed.
 
 Lemma ri_step : forall fuel pfuel s o s' r env acc,
-  BInv env s -> RI s acc -> step_f fuel pfuel p s o = (s', r) ->
+  BInv env s -> RI s acc -> step_f tord bord fuel pfuel p s o = (s', r) ->
   (forall sets b, o = OSession sets b -> r_out r <> RFuel) ->
   RI s' (ext_step acc (o, r)).
 Proof.
@@ -240,9 +244,9 @@ Proof.
       * inversion Er. subst s2 batch2. rewrite N4, Hl1. cbn [rev nmem existsb].
         apply Rx. rewrite <- Hi. symmetry. rewrite (sess_fold_get _ _ _ _ _ _ _ (ext_node k) Ef); [reflexivity|discriminate].
   - cbn [world_op]. unfold step_f in H.
-    destruct (query_for p None fuel [] CUser None n (set_log s [])) as [[[[o fr] ms] s1]| | |] eqn:Eq.
+    destruct (query_for_o p None tord bord fuel [] CUser None n (set_log s [])) as [[[[o fr] ms] s1]| | |] eqn:Eq.
     + destruct (root_query _ _ _ _ _ _ _ _ HI0 Eq) as [HI1 _].
-      pose proof (proj1 (mworld_all p fuel) _ _ _ _ _ _ _ _ _ Eq) as HW. unfold Wd in HW. cbn [set_log s_world] in HW.
+      pose proof (proj1 (mworld_all p tord bord fuel) _ _ _ _ _ _ _ _ _ Eq) as HW. unfold Wd in HW. cbn [set_log s_world] in HW.
       assert (Er : r_execs r = rev (s_log s1) /\ s' = s1) by (destruct o as [[z|]|]; inversion H; subst; auto).
       destruct Er as [Er Es']. subst s'. split; [cbn [snd]; congruence|].
       cbn [fst]. intros k i Hi. rewrite Er.
@@ -273,22 +277,22 @@ Qed.
 Lemma mrun_sound_x : forall fuel pfuel ops s env acc i n r z,
   BInv env s -> RI s acc ->
   (forall k sets b rk0, (k < i)%nat -> nth_error ops k = Some (OSession sets b) ->
-     nth_error (run_history_f fuel pfuel p s ops) k = Some rk0 -> r_out rk0 <> RFuel) ->
+     nth_error (run_history_f tord bord fuel pfuel p s ops) k = Some rk0 -> r_out rk0 <> RFuel) ->
   nth_error ops i = Some (OQuery n) ->
-  nth_error (run_history_f fuel pfuel p s ops) i = Some r ->
+  nth_error (run_history_f tord bord fuel pfuel p s ops) i = Some r ->
   r_out r = RValue z ->
   MSpecI p (fold_left apply_op (firstn i ops) (fst env),
-            fst (fold_left ext_step (combine (firstn (S i) ops) (firstn (S i) (run_history_f fuel pfuel p s ops))) acc)) n z.
+            fst (fold_left ext_step (combine (firstn (S i) ops) (firstn (S i) (run_history_f tord bord fuel pfuel p s ops))) acc)) n z.
 Proof.
   intros fuel pfuel. induction ops as [|o rest IH]; intros s env acc i n r z HI HR Hfuel Hop Hres Hz.
   - destruct i; discriminate.
-  - cbn [run_history_f] in Hres, Hfuel |- *. destruct (step_f fuel pfuel p s o) as [s' x] eqn:Es.
+  - cbn [run_history_f] in Hres, Hfuel |- *. destruct (step_f tord bord fuel pfuel p s o) as [s' x] eqn:Es.
     destruct i as [|i].
     + cbn in Hop, Hres. inversion Hop. inversion Hres. subst o x. cbn [firstn fold_left combine].
       assert (Hf0 : forall sets b, OQuery n = OSession sets b -> r_out r <> RFuel) by (intros; discriminate).
       pose proof (ri_step _ _ _ _ _ _ _ _ HI HR Es Hf0) as [_ HR'].
       unfold step_f in Es.
-      destruct (query_for p None fuel [] CUser None n (set_log s [])) as [[[[o fr] ms] s1]| | |] eqn:Eq;
+      destruct (query_for_o p None tord bord fuel [] CUser None n (set_log s [])) as [[[[o fr] ms] s1]| | |] eqn:Eq;
         try (inversion Es; subst; discriminate).
       destruct (root_query _ _ _ _ _ _ _ _ HI Eq) as (HI1 & i0 & Hi0 & Hv0 & ->).
       inversion Es. subst s' r. cbn [r_out] in Hz. inversion Hz. subst z.
@@ -311,19 +315,26 @@ End Steps.
 (** * C01 on the full model with external inputs, for every history and every fuel *)
 Theorem model_sound_x_f : model_sound_x_statement_f.
 Proof.
-  intros fuel pfuel p ops i n r z Hwf Hfuel Hop Hres Hz.
+  intros tord bord fuel pfuel p ops i n r z Ht Hb Hwf Hfuel Hop Hres Hz.
   destruct (wf_model_x_facts p Hwf) as (rk & Hrk & Hproj & Hkeys). apply MdlSpecX_MSpecI.
   unfold inputs_after, ext_after.
-  apply (mrun_sound_x p rk Hrk Hproj Hkeys fuel pfuel ops init_state init_env (no_ext, []) i n r z); auto.
+  apply (mrun_sound_x p tord bord rk Hrk Hproj Hkeys (order_ok_In _ Ht) (order_ok_In _ Hb)
+           fuel pfuel ops init_state init_env (no_ext, []) i n r z); auto.
   - apply (MInv_init p rk noE).
   - split; [reflexivity|]. intros k j Hj. discriminate.
 Qed.
+Theorem model_sound_x_o : model_sound_x_statement_o.
+Proof.
+  intros tord bord p ops i n r z Ht Hb Hwf Hfuel Hop Hres Hz.
+  rewrite run_history_o_is_f in Hres. rewrite run_history_o_is_f.
+  eapply (model_sound_x_f tord bord fuel0 4000%nat); eauto.
+  intros k sets b rk0 Hk Hk1 Hk2. rewrite <- run_history_o_is_f in Hk2. eapply Hfuel; eauto.
+Qed.
+(** the schedule in list order *)
 Theorem model_sound_x : model_sound_x_statement.
 Proof.
   intros p ops i n r z Hwf Hfuel Hop Hres Hz.
-  rewrite run_history_is_f in Hres. rewrite run_history_is_f.
-  eapply (model_sound_x_f fuel0 4000%nat); eauto.
-  intros k sets b rk0 Hk Hk1 Hk2. rewrite <- run_history_is_f in Hk2. eapply Hfuel; eauto.
+  exact (model_sound_x_o ord_id ord_id p ops i n r z ord_id_ok ord_id_ok Hwf Hfuel Hop Hres Hz).
 Qed.
 
 (** without external inputs the replayed values are not looked at *)
@@ -337,8 +348,8 @@ Qed.
 
 Theorem model_sound_g_f : model_sound_g_statement_f.
 Proof.
-  intros fuel pfuel p ops i n r z Hwf Hsc Hfuel Hop Hres Hz.
-  pose proof (model_sound_x_f fuel pfuel p ops i n r z (wf_model_x_of p Hwf) Hfuel Hop Hres Hz) as H.
+  intros tord bord fuel pfuel p ops i n r z Ht Hb Hwf Hsc Hfuel Hop Hres Hz.
+  pose proof (model_sound_x_f tord bord fuel pfuel p ops i n r z Ht Hb (wf_model_x_of p Hwf) Hfuel Hop Hres Hz) as H.
   apply MdlSpecX_MSpecI in H. apply MdlSpec_MSpecI.
   apply (msev_noext p _ no_ext (wf_model_g_noext p Hwf)) in H; [exact H|].
   intros d [<-|[]]. assert (Hn : op_in_scope (OQuery n)).
@@ -349,12 +360,12 @@ Theorem model_sound_g : model_sound_g_statement.
 Proof.
   intros p ops i n r z Hwf Hsc Hfuel Hop Hres Hz.
   rewrite run_history_is_f in Hres.
-  eapply (model_sound_g_f fuel0 4000%nat); eauto.
+  eapply (model_sound_g_f ord_id ord_id fuel0 4000%nat); eauto using ord_id_ok.
   intros k sets b rk0 Hk Hk1 Hk2. rewrite <- run_history_is_f in Hk2. eapply Hfuel; eauto.
 Qed.
 
 Theorem model_sound_f : model_sound_statement_f.
-Proof. intros fuel pfuel p ops i n r z Hwf. apply model_sound_g_f. apply wf_model_g_of. exact Hwf. Qed.
+Proof. intros tord bord fuel pfuel p ops i n r z Ht Hb Hwf. apply model_sound_g_f; auto. apply wf_model_g_of. exact Hwf. Qed.
 Theorem model_sound : model_sound_statement.
 Proof. intros p ops i n r z Hwf. apply model_sound_g. apply wf_model_g_of. exact Hwf. Qed.
 
@@ -440,6 +451,31 @@ Example mex_run :
     RSession [SUpdated]; RValue 7; RUnit; RValue 24;
     RSession [SUpdated; SUpdated]; RValue 13 ].
 Proof. vm_compute. reflexivity. Qed.
+
+(** the same history under the reversed schedule of the parallel tasks: same answers (the
+    executor invocations of one operation may come in another order) *)
+Definition ord_rev : oracle := fun _ _ l => rev l.
+Lemma ord_rev_ok : order_ok ord_rev.
+Proof. intros s x l. apply Permutation_rev. Qed.
+Definition mex_hist2 : list op :=
+  [ OSession [(0%N, 1); (1%N, 1); (2%N, 10)] false; OQuery (mex_N 1);
+    OSession [(1%N, 3); (0%N, 4)] false; OQuery (mex_N 1) ].
+Example mex_run_rev :
+  map r_out (run_history_o ord_rev ord_rev mex_prog init_state mex_hist) =
+  map r_out (run_history mex_prog init_state mex_hist) /\
+  map r_out (run_history_o ord_rev ord_rev mex_prog init_state mex_hist2) =
+  map r_out (run_history mex_prog init_state mex_hist2) /\
+  map r_execs (run_history_o ord_rev ord_rev mex_prog init_state mex_hist2) <>
+  map r_execs (run_history mex_prog init_state mex_hist2).
+Proof. split; [vm_compute; reflexivity|]. split; [vm_compute; reflexivity|vm_compute; discriminate]. Qed.
+(** the hypothesis on the oracles is needed: an oracle that drops tasks (either kind) makes the
+    fifth operation answer the stale 12 instead of 13 *)
+Definition ord_nil : oracle := fun _ _ _ => [].
+Example mex_order_needed :
+  nth_error (map r_out (run_history mex_prog init_state mex_hist)) 4 = Some (RValue 13) /\
+  nth_error (map r_out (run_history_o ord_nil ord_id mex_prog init_state mex_hist)) 4 = Some (RValue 12) /\
+  nth_error (map r_out (run_history_o ord_id ord_nil mex_prog init_state mex_hist)) 4 = Some (RValue 12).
+Proof. repeat split; vm_compute; reflexivity. Qed.
 
 (** * example with unordered groups (a projection over a group of firewalls) *)
 Definition mexg_prog : program :=
